@@ -64,7 +64,8 @@ def run(ck):
     ck.clause("C14.9", "--sequentialityScore and --segmentJoinMultiplier reach the scorer as numbers: the option keeps its numeric type "
                        "(the scorer picks its variant with `== 0`, which a string never satisfies)")
     from ..rules.common import option_interface
-    option_interface(ck, "C14.9", only_dests={"sequentialityScore", "segmentJoinMultiplier"})
+    if ck.wants("C14.9"):
+        option_interface(ck, "C14.9", only_dests={"sequentialityScore", "segmentJoinMultiplier"})
     ck.clause("C14.7", "the chainer keeps nothing from one call to the next: DP tables and links are local to a call (as C09.3 / C10.1)")
     from .c09 import persistent_state
     persistent_state(_RV14(ck, {"C14.7": "C14.7"}, only_files=("src/alignment/segment_chainer.py",)), "C14.7")
